@@ -4,8 +4,8 @@ from ..gen.checks import GenCheck, COMMON_ASSUMPTIONS
 
 ENGINE = "dgen+refsem"
 TECHNIQUE = "runtime monitoring: random well-formed designs emitted as real Transactron objects, simulated under hostile input valuations; per-cycle oracle = independent reference semantics over sampled run/data/witness signals"
-CHECK = GenCheck("C02", ("C02:",), {"max_conflicts": 4, "p_lifted_priority": 0.3, "p_xmod_conflict": 0.5, "p_same_trans_conflict": 0.4}, scheds=("eager", "rr"), library=True, suite=True, nontrivial_counter="conflict_pairs_both_sides_enabled_cycles")
+CHECK = GenCheck("C02", ("C02:",), {"max_conflicts": 4, "p_lifted_priority": 0.3, "p_xmod_conflict": 0.5, "p_same_trans_conflict": 0.4, "p_case_after_if": 0.4}, scheds=("eager", "rr"), library=True, suite=True, nontrivial_counter="conflict_pairs_both_sides_enabled_cycles")
 shards, run_shard = CHECK.shards, CHECK.run_shard
 ASSUMPTIONS = COMMON_ASSUMPTIONS
-RULE = ("[plus the repository's own tests run with the transaction sanitizer attached to every simulator they create - two files in the quick tier, the whole suite in the thorough tier; test outcomes are not verdicts] [plus a realistic second workload: library components (FIFOs, stack, connectors, memories, CAM, allocators, metrics) under the hostile component driver with the design-independent transaction sanitizer vf/txsan.py attached] random well-formed designs with 0-4 add_conflict relations of every priority between transactions, methods and mixed pairs (ends reached directly, through nested calls and aliases; ends in different alternatives of one structure; conflicts with uncalled methods), both schedulers; oracle: both ends never run in one cycle; non-trivial design = some cycle in which transactions reaching both ends were fully enabled; distinct = (design shape signature, scheduler)")
+RULE = ("[plus the repository's own tests run with the transaction sanitizer attached to every simulator they create - two files in the quick tier, the whole suite in the thorough tier; test outcomes are not verdicts] [plus a realistic second workload: library components (FIFOs, stack, connectors, memories, CAM, allocators, metrics) under the hostile component driver with the design-independent transaction sanitizer vf/txsan.py attached] random well-formed designs with 0-4 add_conflict relations of every priority between transactions, methods and mixed pairs (ends reached directly, through nested calls and aliases; ends in different alternatives of one structure; first body of a module under its first If and a later body in a Case of a later module-level Switch; conflicts with uncalled methods), both schedulers; oracle: both ends never run in one cycle; non-trivial design = some cycle in which transactions reaching both ends were fully enabled; distinct = (design shape signature, scheduler)")
 MINIMA = {"quick": {"cycles": 8000, "cond:C02:add_conflict_ends_never_run_together": 5000, "conflict_pairs_both_sides_enabled_cycles": 300, "distinct": 15}, "thorough": {"cycles": 1000000, "distinct": 400}}
